@@ -63,6 +63,10 @@ def directed_plans(tier):
     for lo in range(1, 97 if tier == 'quick' else 257, 16):
         out.append({'mode': 'design_grid', 'n_part_lo': lo, 'n_part_hi': lo + 16, 'n_cond_hi': 13 if tier == 'quick' else 25,
                     'faults': {'rate': 0, 'kinds': []}})
+    # the exact-signal clause across signal strengths far from 1 (data in other units), judged relative to signal * model RDM
+    for k_, (kind_, th_) in enumerate((('fixed', None), ('weighted', [2.0, 0.5]), ('fixed', None))):
+        out.append({**base, 'mode': 'signal_scale', 'kind': kind_, 'theta': th_, 'n_channel': 7 + k_, 'n_sim': 2, 'serve_seed': 1234 + k_,
+                    'signals': [1e-16, 1e-12, 1e-8, 1e-3, 1.0, 1e6, 1e12], 'use_same_signal': bool(k_ % 2), 'noise': 0})
     # two histories (thorough tier VERIF_SEED=0; quick tier VERIF_SEED=6) on which the exact-signal construction breaks down
     # macroscopically: model RDMs with two identical conditions whose second-moment matrix makes scipy's LDL use a 2x2
     # pivot. Kept as directed scenarios so that the known finding is re-observed on every run.
@@ -82,6 +86,11 @@ def summarize(plan):
 
 
 def shrink_candidates(plan):
+    if plan.get('mode') == 'signal_scale':
+        if len(plan['signals']) > 1:
+            for i_ in range(len(plan['signals'])):
+                yield {**plan, 'signals': plan['signals'][:i_] + plan['signals'][i_ + 1:]}
+        return
     if plan.get('mode') == 'design_grid':
         if plan['n_part_hi'] - plan['n_part_lo'] > 1:
             mid = (plan['n_part_lo'] + plan['n_part_hi']) // 2
@@ -289,11 +298,43 @@ def _design_grid(plan, ctx):
     ctx.behaviour('design_grid', plan['n_part_lo'])
 
 
+def _signal_scale(plan, ctx):
+    """exact signal, zero noise, spare channels: RDM by condition = signal * model RDM for signal strengths from 1e-16 to
+    1e12, to 1e-4 relative (the unchanged tree is right to ~1e-6)"""
+    ctx.components.update(['real:rsatoolbox.simulation.sim', 'real:rsatoolbox.model', 'stub:numpy.random.uniform (values served by the simulator)'])
+    nc = plan['n_cond']
+    for sgn in plan['signals']:
+        p2 = {**plan, 'signal': sgn}
+        ctx.tick('op', op='signal_scale', signal=sgn)
+        try:
+            ds, _, (m, theta, pred, cv, cidx, labels) = _simulate(ctx, p2, 0, None)
+        except HarnessError:
+            raise
+        except Exception as e:
+            ctx.violation('sim_ref.raises', f'make_dataset:raises:{type(e).__name__}', f'make_dataset(signal={sgn}) raised {type(e).__name__}: {e}')
+            return
+        exp = sgn * pred
+        ref = float(np.max(np.abs(exp)))
+        for s_, d in enumerate(ds):
+            got = _rdm_from_data(np.asarray(d.measurements), np.asarray(cidx), nc)
+            rel = float(np.max(np.abs(got - exp))) / ref
+            if not rel <= 1e-4:
+                ctx.violation('sim_ref.clause1', 'make_dataset:exact-rdm:signal-scale',
+                              f'signal={sgn}: squared-Euclidean RDM of the zero-noise exact data differs from signal * model RDM by {rel:.3g} '
+                              f'relative (simulation {s_}; row 0 {got[0].tolist()} vs {exp[0].tolist()})')
+                return
+        ctx.probe('signal_scale_cells')
+    ctx.nontrivial = True
+    ctx.behaviour('signal_scale', plan['kind'])
+
+
 def execute(plan, ctx):
     import rsatoolbox  # noqa
     from scipy.special import ndtri
     if plan.get('mode') == 'design_grid':
         return _design_grid(plan, ctx)
+    if plan.get('mode') == 'signal_scale':
+        return _signal_scale(plan, ctx)
     ctx.components.update(['real:rsatoolbox.simulation.sim', 'real:rsatoolbox.rdm.calc_rdm', 'real:rsatoolbox.model',
                            'real:scipy.linalg.ldl', 'stub:numpy.random.uniform (values served by the simulator)'])
     nc, n_ch, n_sim = plan['n_cond'], plan['n_channel'], plan['n_sim']
